@@ -12,6 +12,54 @@ from ..re_model import BCLS, BMOD, CLS, MOD, REModel
 from . import c05
 
 
+def suspend_depth_protocol(ctx, rm: REModel, rule):
+    """Interruptions nest (a pause inside a suspension, two suspenders): monitors must stay unsubscribed until the LAST
+    enclosing interruption is over and be re-subscribed exactly once.  Reference: n = number of open interruptions
+    (suspend: n+1, restore: n-1, restore at 0 is a no-op); subscribed iff n == 0.  The two methods are interpreted
+    (bsa/miniexec.py) from every attribute valuation reached, over all words of suspend / restore calls up to length 6."""
+    import itertools
+
+    from .. import miniexec
+    from ..idioms import self_attr_writes
+
+    sm, rs = rm.b("suspend_monitors"), rm.b("restore_monitors")
+    attrs = sorted({a for f in (sm, rs) for s, a, k in self_attr_writes(f.node)})
+    init = {}
+    cls_funcs = [f for f in rm.repo.funcs_in("bluesky.bundlers") if f.qualname.startswith("RunBundler.")]
+    for a in attrs:
+        vals = {s.value.value for f in cls_funcs if f.qualname.split(".")[-1] in ("__init__", "open_run") for s in A.walk_stmts(f.node.body)
+                if isinstance(s, ast.Assign) and A.chain(s.targets[0]) == f"self.{a}" and isinstance(s.value, ast.Constant)}
+        if len(vals) == 1:
+            init[a] = vals.pop()  # attributes without a constant scalar initial value (collections) are not part of the counter state
+    bad = None
+    n_words = 0
+    for length in range(1, 7):
+        for word in itertools.product("SR", repeat=length):
+            n_words += 1
+            state, n, sub = dict(init), 0, True
+            for i, w in enumerate(word):
+                eff = miniexec.run_method((sm if w == "S" else rs).node, state, ("clear_sub", "subscribe"))
+                n = n + 1 if w == "S" else max(n - 1, 0)
+                for e in eff:
+                    if e == "clear_sub":
+                        sub = False
+                    elif e == "subscribe":
+                        if sub and bad is None:
+                            bad = ("".join(word[: i + 1]), "monitors are subscribed a second time", dict(state))
+                        sub = True
+                if bad is None and sub != (n == 0):
+                    bad = ("".join(word[: i + 1]), f"after this call sequence {n} interruption(s) are still open but the monitors are "
+                           f"{'subscribed' if sub else 'not subscribed'}", dict(state))
+            if bad:
+                break
+        if bad:
+            break
+    ok = bad is None
+    ctx.ob(rule, cname(sm, None, f"suspend / restore count nested interruptions (all {n_words} call words up to length 6)"), ok,
+           "" if ok else f"call word {bad[0]} (S = suspend_monitors, R = restore_monitors): {bad[1]}; attributes then {bad[2]}",
+           nontrivial=True, witness=None if ok else [f"word {bad[0]}", bad[1], f"state {bad[2]}"], where=where(sm, sm.node))
+
+
 def d1_suspend_restore_pairing(ctx, rm: REModel, rule="C41.D1-suspend-restore-paired"):
     repo = rm.repo
     run = rm.run
@@ -70,6 +118,8 @@ def d1_suspend_restore_pairing(ctx, rm: REModel, rule="C41.D1-suspend-restore-pa
     ctx.ob(rule, cname(rs, None, "re-subscription guarded by state that suspend_monitors records"), ok,
            "" if ok else "restore_monitors subscribes unconditionally: a restore that is not preceded by a suspend (or nested interruptions) "
            "duplicates every monitor subscription", nontrivial=True, where=where(rs, rs.node))
+    # (e) the suspend / restore pair counts nesting: evaluated exactly on every call word up to length 6
+    suspend_depth_protocol(ctx, rm, rule)
     clears = [s for s in A.walk_stmts(sm.node.body) if isinstance(s, (ast.For, ast.AsyncFor)) and A.method_calls(s, "clear_sub") and "self._monitor_params" in A.norm(s.iter)]
     keeps = not any(isinstance(s, ast.Delete) for s in A.walk_stmts(sm.node.body))
     ctx.ob(rule, cname(sm, None, "clears every subscription but keeps the parameters"), bool(clears) and keeps,
@@ -134,6 +184,9 @@ CLAIM = {
 RE = "run_engine.py"
 BU = "bundlers.py"
 MUTANTS = [
+    ("suspend depth saturates at one (seed C41-a)", [("bundlers.py", "        self._monitor_suspend_depth += 1\n        if self._monitor_suspend_depth > 1:\n            # already suspended by an enclosing interruption\n            return", "        if self._monitor_suspend_depth > 0:\n            # already suspended by an enclosing interruption\n            return\n        self._monitor_suspend_depth += 1")], "C41.D1"),
+    ("restore re-subscribes while an outer interruption is open", [("bundlers.py", "        self._monitor_suspend_depth -= 1\n        if self._monitor_suspend_depth > 0:\n            return\n", "        self._monitor_suspend_depth -= 1\n")], "C41.D1"),
+
     ("suspension no longer suspends monitors (revert of the F-4 fix)",
      [(RE, "        for current_run in self._run_bundlers.values():\n            await current_run.suspend_monitors()\n        # During suspend, all motors should be stopped.", "        # During suspend, all motors should be stopped.")], "C41.D1"),
     ("restore subscribes unconditionally (revert of the depth guard)",
@@ -156,8 +209,15 @@ MUTANTS = [
      [(BU, "        # Clear any uncleared monitoring callbacks.\n        for obj, (cb, kwargs) in list(self._monitor_params.items()):  # noqa: B007\n            obj.clear_sub(cb)\n            del self._monitor_params[obj]\n        reason = msg.kwargs.get(\"reason\", None)", "        reason = msg.kwargs.get(\"reason\", None)"),
       (BU, "        await self.emit(DocumentNames.stop, doc)\n", "        await self.emit(DocumentNames.stop, doc)\n        for obj, (cb, kwargs) in list(self._monitor_params.items()):  # noqa: B007\n            obj.clear_sub(cb)\n            del self._monitor_params[obj]\n")], "C41.D2"),
 ]
-BENIGN = [
+MUTANTS += [
+    # was listed as benign until seed C41-a showed that interruptions nest (a pause inside a suspension): with a flag the inner
+    # resume re-subscribes the monitors while the outer suspension is still open
     ("boolean flag instead of a depth counter",
      [(BU, "        self._monitor_suspend_depth += 1\n        if self._monitor_suspend_depth > 1:\n            # already suspended by an enclosing interruption\n            return\n", "        if self._monitor_suspend_depth:\n            return\n        self._monitor_suspend_depth = 1\n"),
-      (BU, "        self._monitor_suspend_depth -= 1\n        if self._monitor_suspend_depth > 0:\n            return\n", "        self._monitor_suspend_depth = 0\n")]),
+      (BU, "        self._monitor_suspend_depth -= 1\n        if self._monitor_suspend_depth > 0:\n            return\n", "        self._monitor_suspend_depth = 0\n")], "C41.D1"),
+]
+BENIGN = [
+    ("depth counter written with explicit comparisons",
+     [(BU, "        self._monitor_suspend_depth += 1\n        if self._monitor_suspend_depth > 1:\n            # already suspended by an enclosing interruption\n            return\n", "        self._monitor_suspend_depth = self._monitor_suspend_depth + 1\n        if self._monitor_suspend_depth != 1:\n            return\n"),
+      (BU, "        self._monitor_suspend_depth -= 1\n        if self._monitor_suspend_depth > 0:\n            return\n", "        self._monitor_suspend_depth -= 1\n        if not self._monitor_suspend_depth == 0:\n            return\n")]),
 ]
